@@ -410,6 +410,15 @@ class Interp:
 
     def e_BoolOp(self, node, env):
         is_and = isinstance(node.op, ast.And)
+        if getattr(self, "pure_depth", 0):
+            # pointwise evaluation on a bound variable (T-forest): no forking, all operands must be boolean-valued
+            terms = []
+            for sub in node.values:
+                v = self.force(self.eval(sub, env))
+                if not isinstance(v, (bool, SBool)):
+                    raise Unsupported("pure evaluation of and/or over non-boolean operands")
+                terms.append(pyops.bool_z(pyops.truth(v)))
+            return pyops.mk_bool(z3.And(*terms) if is_and else z3.Or(*terms))
         last = None
         for i, sub in enumerate(node.values):
             last = self.eval(sub, env)
@@ -426,6 +435,9 @@ class Interp:
         """truthiness -> python bool or z3 Bool (collections of unknown size included)"""
         if isinstance(v, TheoryObj) and v.theory == "symiter":
             return self.symiter_nonempty(v)
+        if isinstance(v, TheoryObj) and v.theory == "reflist":
+            from .theories import forest
+            return forest.b_len(self, v).z > 0
         if isinstance(v, TheoryObj) and v.theory == "acc":
             # emptiness of an accumulator of unknown history is not known
             return self.ctx.fresh_bool("acc_nonempty")
@@ -437,9 +449,18 @@ class Interp:
         t = self.truth(v)
         if isinstance(t, bool):
             return t
+        if getattr(self, "pure_depth", 0):
+            raise Unsupported("control flow depending on the bound element inside a pointwise (pure) evaluation")
         return self.ctx.decide(t, "truth")
 
     def e_IfExp(self, node, env):
+        if getattr(self, "pure_depth", 0):
+            t = self.truth(self.eval(node.test, env))
+            if not isinstance(t, bool):
+                a, b = self.force(self.eval(node.body, env)), self.force(self.eval(node.orelse, env))
+                if isinstance(a, (int, SInt)) and isinstance(b, (int, SInt)) and not isinstance(a, bool) and not isinstance(b, bool):
+                    return SInt(z3.If(t, pyops.int_z(a), pyops.int_z(b)))
+                raise Unsupported("pure evaluation of a conditional expression over non-integers")
         if self.decide_truth(self.eval(node.test, env)):
             return self.eval(node.body, env)
         return self.eval(node.orelse, env)
@@ -839,6 +860,8 @@ class Interp:
 
     def slice(self, base, lo, hi):
         lo, hi = self.force(lo), self.force(hi)
+        if isinstance(base, TheoryObj) and base.theory == "reflist":
+            return self.reg.builtins["__reflist_slice__"].fn(self, base, lo, hi)
         if isinstance(base, (PList, tuple)) and (lo is None or isinstance(lo, int)) and (hi is None or isinstance(hi, int)):
             items = base.items if isinstance(base, PList) else base
             out = items[lo:hi]
@@ -886,7 +909,17 @@ class Interp:
     def e_Lambda(self, node, env):
         return FuncVal(env.module, f"{env.fn}.<lambda@{node.lineno}>", node, closure=env)
 
+    def reflist_comp(self, what, node, env):
+        if len(node.generators) == 1:
+            itv = self.force(self.eval(node.generators[0].iter, env))
+            if isinstance(itv, TheoryObj) and itv.theory == "reflist":
+                return self.reg.builtins["__reflist_comprehension__"].fn(self, what, node, itv, env)
+        return None
+
     def e_ListComp(self, node, env):
+        r = self.reflist_comp("list", node, env)
+        if r is not None:
+            return r
         if len(node.generators) == 1:
             itv = self.force(self.eval(node.generators[0].iter, env))
             if isinstance(itv, TheoryObj) and itv.theory == "symiter":
@@ -894,6 +927,9 @@ class Interp:
         return PList(self._comp(node, env, lambda e: self.eval(node.elt, e)))
 
     def e_GeneratorExp(self, node, env):
+        r = self.reflist_comp("gen", node, env)
+        if r is not None:
+            return r
         if len(node.generators) == 1:
             g = node.generators[0]
             itv = self.force(self.eval(g.iter, env))
@@ -967,6 +1003,9 @@ class Interp:
         return self.eval(node.elt, e2)
 
     def e_SetComp(self, node, env):
+        r = self.reflist_comp("set", node, env)
+        if r is not None:
+            return r
         src = node.generators[0]
         if len(node.generators) == 1 and not src.ifs:
             it = self.force(self.eval(src.iter, env))
@@ -976,6 +1015,9 @@ class Interp:
         return PSet(self._comp(node, env, lambda e: self.eval(node.elt, e)))
 
     def e_DictComp(self, node, env):
+        r = self.reflist_comp("dict", node, env)
+        if r is not None:
+            return r
         if len(node.generators) == 1:
             it = self.force(self.eval(node.generators[0].iter, env))
             sym = self.symbolic_comprehension("dict", node, it, env)
@@ -1277,9 +1319,11 @@ class Interp:
         return self.ctx.ghost.setdefault("heap_schema", {})
 
     def heap_get(self, ref: SRef, attr: str):
-        kind = self.heap_schema().get((ref.cls, attr))
+        kind = self.heap_schema().get((ref.cls.split("@", 1)[0], attr))
         if kind is None:
             raise Unsupported(f"heap field {ref.cls}.{attr} not declared")
+        if kind == "self":
+            return SInt(ref.z)      # the address is the value (e.g. Snapshot.snapshot_id under 'ids unique in one list')
         arrs = self.heap_arrays()
         if isinstance(kind, tuple) and kind[0] == "opt":
             return SOpt(z3.Select(arrs[(ref.cls, attr, "none")], ref.z),
@@ -1287,9 +1331,12 @@ class Interp:
         return wrap(kind, z3.Select(arrs[(ref.cls, attr)], ref.z))
 
     def heap_set(self, ref: SRef, attr: str, val):
-        kind = self.heap_schema().get((ref.cls, attr))
+        kind = self.heap_schema().get((ref.cls.split("@", 1)[0], attr))
         if kind is None:
             raise Unsupported(f"heap field {ref.cls}.{attr} not declared")
+        if kind == "self":
+            raise Unsupported(f"assignment to the identity field {ref.cls}.{attr}")
+        self.ctx.ghost.setdefault("heap_writes", []).append((ref, attr, val))
         arrs = self.heap_arrays()
         if isinstance(kind, tuple) and kind[0] == "opt":
             if val is None:
@@ -1793,6 +1840,10 @@ class Interp:
         spec = self.loop_spec(node)
         itv = self.force(self.eval(node.iter, env))
         symbolic_iter = isinstance(itv, (SSeq, SSetZ, SMapZ)) or (isinstance(itv, tuple) and len(itv) == 2 and itv and itv[0] == "__range__")
+        if isinstance(itv, TheoryObj) and itv.theory in ("reflist", "reflist_enum"):
+            if spec is None:
+                raise Unsupported(f"for loop at line {node.lineno} over a list of heap objects of unknown length needs an invariant")
+            return self.reg.builtins["__reflist_for__"].fn(self, node, env, spec, itv)
         if spec is not None and not spec.unroll:
             return self._for_cut(node, env, spec, itv)
         if isinstance(itv, TheoryObj) and itv.theory == "symiter" and spec is None:
